@@ -24,38 +24,68 @@ theorem specCfg_bias (c : Model.Cfg) : (specCfg c).bias = c.EXP_BIAS := rfl
 
 theorem specCfg_nbits (c : Model.Cfg) : (specCfg c).nbits = c.nbits := rfl
 
-/-- core of C18: a finite normal source whose exponent lies in [MIN_EXP_SUBNORMAL, MAX_EXP-1] and which is not in the
-    all-ones top corner is enclosed by the encoding `operator=` produces. -/
-theorem assignCore_encloses (c : Model.Cfg) (srcF srcBias W : Nat) (sub : Bool) (s : Bool) (raw_exp raw0 : Nat)
+/-- a normalised source (raw0 + 2^srcF)·2^(exponent - srcF) on the target's scale: with u = fbits - srcF, d = srcF - fbits
+    (one of them is 0), ft = raw0·2^u / 2^d the fraction field and lo = raw0·2^u mod 2^d what is dropped,
+    the value is (ft + 2^fbits)·2^(exponent - fbits) + lo·2^(exponent - srcF - u). -/
+theorem src_decomp (srcF F raw0 : Nat) (exponent : Int) (hraw : raw0 < 2 ^ srcF) :
+    raw0 * 2 ^ (F - srcF) / 2 ^ (srcF - F) < 2 ^ F ∧
+    raw0 * 2 ^ (F - srcF) % 2 ^ (srcF - F) < 2 ^ (srcF - F) ∧
+    pow2 (exponent - (F : Int)) = pow2 (exponent - (srcF : Int) - ((F - srcF : Nat) : Int)) * ((2 ^ (srcF - F) : Nat) : Rat) ∧
+    dyadic ((raw0 + 2 ^ srcF : Nat) : Int) (exponent - (srcF : Int)) =
+      ((raw0 * 2 ^ (F - srcF) / 2 ^ (srcF - F) + 2 ^ F : Nat) : Rat) * pow2 (exponent - (F : Int)) +
+        ((raw0 * 2 ^ (F - srcF) % 2 ^ (srcF - F) : Nat) : Rat) * pow2 (exponent - (srcF : Int) - ((F - srcF : Nat) : Int)) := by
+  generalize hu : F - srcF = u
+  generalize hd : srcF - F = d
+  have hud : srcF + u = d + F := by omega
+  set ft := raw0 * 2 ^ u / 2 ^ d with hft
+  set lo := raw0 * 2 ^ u % 2 ^ d with hlo
+  have hsplit : raw0 * 2 ^ u = 2 ^ d * ft + lo := (Nat.div_add_mod (raw0 * 2 ^ u) (2 ^ d)).symm
+  have hlolt : lo < 2 ^ d := Nat.mod_lt _ (Nat.two_pow_pos _)
+  have hftlt : ft < 2 ^ F := by
+    apply Nat.div_lt_of_lt_mul
+    rw [← Nat.pow_add, ← hud, Nat.pow_add]
+    exact Nat.mul_lt_mul_of_pos_right hraw (Nat.two_pow_pos _)
+  have hP : pow2 (exponent - (F : Int)) = pow2 (exponent - (srcF : Int) - (u : Int)) * ((2 ^ d : Nat) : Rat) := by
+    rw [← pow2_add_nat]; congr 1; omega
+  have hQ : pow2 (exponent - (srcF : Int)) = pow2 (exponent - (srcF : Int) - (u : Int)) * ((2 ^ u : Nat) : Rat) := by
+    rw [← pow2_add_nat]; congr 1; omega
+  refine ⟨hftlt, hlolt, hP, ?_⟩
+  have hN : (raw0 + 2 ^ srcF) * 2 ^ u = (ft + 2 ^ F) * 2 ^ d + lo := by
+    rw [Nat.add_mul, hsplit, ← Nat.pow_add, hud, Nat.pow_add]; ring
+  have hNq : (((raw0 + 2 ^ srcF : Nat) : Int) : Rat) * ((2 ^ u : Nat) : Rat) = (((ft + 2 ^ F) * 2 ^ d + lo : Nat) : Rat) := by
+    rw [← hN]; push_cast; ring
+  rw [dyadic_def, hP, hQ]
+  calc (((raw0 + 2 ^ srcF : Nat) : Int) : Rat) * (pow2 (exponent - (srcF : Int) - (u : Int)) * ((2 ^ u : Nat) : Rat))
+      = ((((raw0 + 2 ^ srcF : Nat) : Int) : Rat) * ((2 ^ u : Nat) : Rat)) * pow2 (exponent - (srcF : Int) - (u : Int)) := by ring
+    _ = _ := by rw [hNq]; push_cast; ring
+
+/-- core of C18: a finite source (normalised: hidden bit explicit) whose exponent lies in [MIN_EXP_SUBNORMAL, MAX_EXP-1] and
+    which is not in the all-ones top corner is enclosed by the encoding `operator=` produces — for every relation between
+    the source's and the target's fraction width (right shift with sticky mask, or left shift). -/
+theorem assignCore_encloses (c : Model.Cfg) (srcF W : Nat) (s : Bool) (exponent : Int) (raw0 : Nat)
     (hes : 1 ≤ c.es) (hn : c.es + 3 ≤ c.nbits) (hw : 1 ≤ c.w) (hW : c.nbits ≤ W) (hW64 : W ≤ 64)
     (hst : c.nrBlocks = 1 ∨ c.nrBlocks ≤ (W + 1) / c.w)
-    (hsr : c.fbits + 1 < srcF) (hraw : raw0 < 2 ^ srcF)
-    (hsrc : 1 ≤ raw_exp)
-    (hlo : c.MIN_EXP_SUBNORMAL ≤ (raw_exp : Int) - (srcBias : Int))
-    (hhi : (raw_exp : Int) - (srcBias : Int) < c.MAX_EXP)
-    (htop : ¬ ((raw_exp : Int) - (srcBias : Int) = c.MAX_EXP - 1 ∧ raw0 / 2 ^ (srcF - c.fbits) = 2 ^ c.fbits - 1)) :
+    (hraw : raw0 < 2 ^ srcF)
+    (hlo : c.MIN_EXP_SUBNORMAL ≤ exponent) (hhi : exponent < c.MAX_EXP)
+    (htop : ¬ (exponent = c.MAX_EXP - 1 ∧ raw0 * 2 ^ (c.fbits - srcF) / 2 ^ (srcF - c.fbits) = 2 ^ c.fbits - 1)) :
     encloses (specCfg c)
-      (.fin s (dyadic ((raw0 + 2 ^ srcF : Nat) : Int) ((raw_exp : Int) - (srcBias : Int) - (srcF : Int))))
-      (Model.assignCore c srcF srcBias W sub s raw_exp raw0) = true := by
+      (.fin s (dyadic ((raw0 + 2 ^ srcF : Nat) : Int) (exponent - (srcF : Int))))
+      (Model.assignCore c srcF W s exponent raw0) = true := by
   obtain ⟨k1, k2, k3⟩ := model_consts c hes
   have hesS : 1 ≤ (specCfg c).es := hes
   have hnS : (specCfg c).es + 3 ≤ (specCfg c).nbits := hn
-  have hFd : srcF = (srcF - c.fbits) + c.fbits := by omega
-  by_cases hnorm : c.MIN_EXP_NORMAL ≤ (raw_exp : Int) - (srcBias : Int)
+  by_cases hnorm : c.MIN_EXP_NORMAL ≤ exponent
   · -- normal target
-    rw [assignCore_normal c srcF srcBias W sub s raw_exp raw0 hes hn hw hW hst hsr hraw hnorm hhi]
-    generalize hexp : (raw_exp : Int) - (srcBias : Int) = exponent at *
+    rw [assignCore_normal c srcF W s exponent raw0 hes hn hw hW hst hraw hnorm hhi htop]
+    obtain ⟨hftlt, hlolt, hP, hx⟩ := src_decomp srcF c.fbits raw0 exponent hraw
     obtain ⟨be, hbe⟩ : ∃ be : Nat, exponent + c.EXP_BIAS = (be : Int) := ⟨(exponent + c.EXP_BIAS).toNat, by omega⟩
     rw [hbe, Int.toNat_natCast]
     have hbe1 : 1 ≤ be := by omega
     have hbe2 : be < 2 ^ c.es := by omega
-    set d := srcF - c.fbits with hd
-    set ft := raw0 / 2 ^ d with hft
-    set lo := raw0 % 2 ^ d with hlo'
-    have hftlt : ft < 2 ^ c.fbits := by
-      apply Nat.div_lt_of_lt_mul; rw [← Nat.pow_add, ← hFd]; exact hraw
-    have hsplit : raw0 = 2 ^ d * ft + lo := (Nat.div_add_mod raw0 (2 ^ d)).symm
-    have hlolt : lo < 2 ^ d := Nat.mod_lt _ (Nat.two_pow_pos _)
+    generalize hftd : raw0 * 2 ^ (c.fbits - srcF) / 2 ^ (srcF - c.fbits) = ft at *
+    generalize hlod : raw0 * 2 ^ (c.fbits - srcF) % 2 ^ (srcF - c.fbits) = lo at *
+    generalize hdd : srcF - c.fbits = d at *
+    generalize hPd : pow2 (exponent - (srcF : Int) - ((c.fbits - srcF : Nat) : Int)) = P at *
     have hlast : ¬ (be = 2 ^ (specCfg c).es - 1 ∧ ft = 2 ^ (specCfg c).fbits - 1) := by
       rintro ⟨h1, h2⟩
       apply htop
@@ -70,20 +100,7 @@ theorem assignCore_encloses (c : Model.Cfg) (srcF srcBias W : Nat) (sub : Bool) 
     have hE : latE (specCfg c) be = exponent - (c.fbits : Int) := by
       unfold latE; rw [specCfg_bias, specCfg_fbits, show max be 1 = be by omega]; omega
     rw [hT, hE] at hmv
-    -- the source value on the same scale
-    have hP : pow2 (exponent - (c.fbits : Int)) = pow2 (exponent - (srcF : Int)) * ((2 ^ d : Nat) : Rat) := by
-      rw [← pow2_add_nat]; congr 1; omega
-    have hx : dyadic ((raw0 + 2 ^ srcF : Nat) : Int) (exponent - (srcF : Int)) =
-        ((ft + 2 ^ c.fbits : Nat) : Rat) * pow2 (exponent - (c.fbits : Int)) +
-          (lo : Rat) * pow2 (exponent - (srcF : Int)) := by
-      rw [dyadic_def, hP]
-      have : ((raw0 + 2 ^ srcF : Nat) : Int) = (((ft + 2 ^ c.fbits) * 2 ^ d + lo : Nat) : Int) := by
-        congr 1
-        rw [hsplit]
-        have : 2 ^ srcF = 2 ^ c.fbits * 2 ^ d := by rw [← Nat.pow_add]; congr 1; omega
-        rw [this]; ring
-      rw [this]; push_cast; ring
-    have hPpos := pow2_pos (exponent - (srcF : Int))
+    have hPpos : 0 < P := by rw [← hPd]; exact pow2_pos _
     have := encloses_lattice (specCfg c) hesS hnS s (decide (lo ≠ 0)) hbe2
       (by rw [specCfg_fbits]; exact hftlt) hlast
       (dyadic ((raw0 + 2 ^ srcF : Nat) : Int) (exponent - (srcF : Int)))
@@ -102,23 +119,27 @@ theorem assignCore_encloses (c : Model.Cfg) (srcF srcBias W : Nat) (sub : Bool) 
         · intro _; nlinarith)
     rw [specCfg_fbits, specCfg_nbits] at this
     simpa using this
-  · -- subnormal target, normal source
-    have hsub : (raw_exp : Int) - (srcBias : Int) < c.MIN_EXP_NORMAL := by omega
-    rw [assignCore_subnormal c srcF srcBias W sub s raw_exp raw0 hes hn hw hW hW64 hst hsr hraw (by omega) hlo hsub]
-    generalize hexp : (raw_exp : Int) - (srcBias : Int) = exponent at *
+  · -- subnormal target
+    have hsub : exponent < c.MIN_EXP_NORMAL := by omega
+    rw [assignCore_subnormal c srcF W s exponent raw0 hes hn hw hW hW64 hst hraw hlo hsub]
     obtain ⟨k, hk⟩ : ∃ k : Nat, c.MIN_EXP_NORMAL - exponent = (k : Int) := ⟨(c.MIN_EXP_NORMAL - exponent).toNat, by omega⟩
     rw [hk, Int.toNat_natCast]
     have hk1 : 1 ≤ k := by omega
     have hkF : k ≤ c.fbits := by omega
-    set D := srcF - c.fbits + k with hD
+    generalize hUd : c.fbits - (srcF + k) = U
+    generalize hDd : srcF + k - c.fbits = D
+    have hUD : srcF + k + U = D + c.fbits := by omega
     set R := raw0 + 2 ^ srcF with hR
-    set t := R / 2 ^ D with ht
-    set lo := R % 2 ^ D with hlo'
+    set t := R * 2 ^ U / 2 ^ D with ht
+    set lo := R * 2 ^ U % 2 ^ D with hlo'
     have hRlt : R < 2 ^ (srcF + 1) := by rw [hR, Nat.pow_succ]; omega
     have htlt : t < 2 ^ c.fbits := by
-      apply Nat.div_lt_of_lt_mul; rw [← Nat.pow_add]
-      exact Nat.lt_of_lt_of_le hRlt (Nat.pow_le_pow_right (by omega) (by omega))
-    have hsplit : R = 2 ^ D * t + lo := (Nat.div_add_mod R (2 ^ D)).symm
+      apply Nat.div_lt_of_lt_mul
+      calc R * 2 ^ U < 2 ^ (srcF + 1) * 2 ^ U := Nat.mul_lt_mul_of_pos_right hRlt (Nat.two_pow_pos _)
+        _ = 2 ^ (srcF + 1 + U) := by rw [← Nat.pow_add]
+        _ ≤ 2 ^ (D + c.fbits) := Nat.pow_le_pow_right (by omega) (by omega)
+        _ = 2 ^ D * 2 ^ c.fbits := Nat.pow_add ..
+    have hsplit : R * 2 ^ U = 2 ^ D * t + lo := (Nat.div_add_mod (R * 2 ^ U) (2 ^ D)).symm
     have hlolt : lo < 2 ^ D := Nat.mod_lt _ (Nat.two_pow_pos _)
     have hE2 : 2 ≤ 2 ^ c.es := by
       calc 2 = 2 ^ 1 := rfl
@@ -133,15 +154,20 @@ theorem assignCore_encloses (c : Model.Cfg) (srcF srcBias W : Nat) (sub : Bool) 
     have hE : latE (specCfg c) 0 = c.MIN_EXP_NORMAL - (c.fbits : Int) := by
       unfold latE; rw [specCfg_bias, specCfg_fbits]; simp; omega
     rw [hT, hE] at hmv
-    have hP : pow2 (c.MIN_EXP_NORMAL - (c.fbits : Int)) = pow2 (exponent - (srcF : Int)) * ((2 ^ D : Nat) : Rat) := by
-      rw [← pow2_add_nat]; congr 1; omega
+    generalize hPd : pow2 (exponent - (srcF : Int) - (U : Int)) = P
+    have hPpos : 0 < P := by rw [← hPd]; exact pow2_pos _
+    have hP : pow2 (c.MIN_EXP_NORMAL - (c.fbits : Int)) = P * ((2 ^ D : Nat) : Rat) := by
+      rw [← hPd, ← pow2_add_nat]; congr 1; omega
+    have hQ : pow2 (exponent - (srcF : Int)) = P * ((2 ^ U : Nat) : Rat) := by
+      rw [← hPd, ← pow2_add_nat]; congr 1; omega
     have hx : dyadic ((R : Nat) : Int) (exponent - (srcF : Int)) =
-        (t : Rat) * pow2 (c.MIN_EXP_NORMAL - (c.fbits : Int)) + (lo : Rat) * pow2 (exponent - (srcF : Int)) := by
-      rw [dyadic_def, hP]
-      have : ((R : Nat) : Int) = ((t * 2 ^ D + lo : Nat) : Int) := by
-        congr 1; rw [hsplit]; ring
-      rw [this]; push_cast; ring
-    have hPpos := pow2_pos (exponent - (srcF : Int))
+        (t : Rat) * pow2 (c.MIN_EXP_NORMAL - (c.fbits : Int)) + (lo : Rat) * P := by
+      rw [dyadic_def, hP, hQ]
+      have hNq : (((R : Nat) : Int) : Rat) * ((2 ^ U : Nat) : Rat) = ((2 ^ D * t + lo : Nat) : Rat) := by
+        rw [← hsplit]; push_cast; ring
+      calc (((R : Nat) : Int) : Rat) * (P * ((2 ^ U : Nat) : Rat))
+          = ((((R : Nat) : Int) : Rat) * ((2 ^ U : Nat) : Rat)) * P := by ring
+        _ = _ := by rw [hNq]; push_cast; ring
     have := encloses_lattice (specCfg c) hesS hnS s (decide (lo ≠ 0)) (e := 0) (f := t) (Nat.two_pow_pos _)
       (by rw [specCfg_fbits]; exact htlt) hlast
       (dyadic ((R : Nat) : Int) (exponent - (srcF : Int)))
@@ -163,15 +189,17 @@ theorem assignCore_encloses (c : Model.Cfg) (srcF srcBias W : Nat) (sub : Bool) 
 
 /-- `operator=(float)` on a finite normal float reduces to the common body -/
 theorem assignF32_normal (c : Model.Cfg) (bc : Nat) (h1 : 1 ≤ (bc >>> 23) % 256) (h2 : (bc >>> 23) % 256 ≤ 254) :
-    Model.assignF32 c bc = Model.assignCore c 23 127 32 true (bc.testBit 31) ((bc >>> 23) % 256) (bc % 2 ^ 23) := by
-  unfold Model.assignF32
+    Model.assignF32 c bc =
+      Model.assignCore c 23 32 (bc.testBit 31) ((((bc >>> 23) % 256 : Nat) : Int) - 127) (bc % 2 ^ 23) := by
+  unfold Model.assignF32 Model.normalizeSrc
   have a1 : ((bc >>> 23) % 256 == 0xFF) = false := by simp; omega
   have a2 : ((bc >>> 23) % 256 == 0) = false := by simp; omega
   simp [a1, a2]
 
 theorem assignF64_normal (c : Model.Cfg) (bc : Nat) (h1 : 1 ≤ (bc >>> 52) % 2048) (h2 : (bc >>> 52) % 2048 ≤ 2046) :
-    Model.assignF64 c bc = Model.assignCore c 52 1023 64 false (bc.testBit 63) ((bc >>> 52) % 2048) (bc % 2 ^ 52) := by
-  unfold Model.assignF64
+    Model.assignF64 c bc =
+      Model.assignCore c 52 64 (bc.testBit 63) ((((bc >>> 52) % 2048 : Nat) : Int) - 1023) (bc % 2 ^ 52) := by
+  unfold Model.assignF64 Model.normalizeSrc
   have a1 : ((bc >>> 52) % 2048 == 0x7FF) = false := by simp; omega
   have a2 : ((bc >>> 52) % 2048 == 0) = false := by simp; omega
   simp [a1, a2]
@@ -183,9 +211,10 @@ theorem pow2_mono {a b : Int} (h : a ≤ b) : pow2 a ≤ pow2 b := by
   have := pow2_pos a
   nlinarith
 
-/-- any x at or above 2^MAX_EXP is enclosed by (maxpos, ∞) -/
-theorem encloses_above (c : Cfg) (hes : 1 ≤ c.es) (hn : c.es + 3 ≤ c.nbits) (neg : Bool) (x : Rat)
-    (hx : pow2 (((2 ^ c.es : Nat) : Int) - c.bias) ≤ x) :
+/-- any x above the value of maxpos is enclosed by (maxpos, ∞) -/
+theorem encloses_above_gt (c : Cfg) (hes : 1 ≤ c.es) (hn : c.es + 3 ≤ c.nbits) (neg : Bool) (x : Rat)
+    (hx : ((2 ^ c.fbits - 2 + 2 ^ c.fbits : Nat) : Rat) *
+        pow2 (((2 ^ c.es : Nat) : Int) - c.bias - 1 - (c.fbits : Int)) < x) :
     encloses c (.fin neg x) ((if neg then 2 ^ (c.nbits - 1) else 0) + maxposMag c + 1) = true := by
   obtain ⟨hF1, hN1, hN, hM, hNN⟩ := size_facts c hes hn
   have hE2 : 2 ≤ 2 ^ c.es := by
@@ -205,19 +234,26 @@ theorem encloses_above (c : Cfg) (hes : 1 ≤ c.es) (hn : c.es + 3 ≤ c.nbits) 
   have hE : latE c (2 ^ c.es - 1) = ((2 ^ c.es : Nat) : Int) - c.bias - 1 - (c.fbits : Int) := by
     unfold latE; rw [show max (2 ^ c.es - 1) 1 = 2 ^ c.es - 1 by omega]; omega
   have key : magVal c ((2 ^ c.es - 1) * 2 ^ (c.fbits + 1) + 2 * (2 ^ c.fbits - 2)) < x := by
-    rw [hmv, hT, hE]
-    have hP : pow2 (((2 ^ c.es : Nat) : Int) - c.bias) =
-        pow2 (((2 ^ c.es : Nat) : Int) - c.bias - 1 - (c.fbits : Int)) * ((2 ^ (c.fbits + 1) : Nat) : Rat) := by
-      rw [← pow2_add_nat]; congr 1; push_cast; ring
-    have hpos := pow2_pos (((2 ^ c.es : Nat) : Int) - c.bias - 1 - (c.fbits : Int))
-    have hc : ((2 ^ c.fbits - 2 + 2 ^ c.fbits : Nat) : Rat) < ((2 ^ (c.fbits + 1) : Nat) : Rat) := by
-      exact_mod_cast (show 2 ^ c.fbits - 2 + 2 ^ c.fbits < 2 ^ (c.fbits + 1) by omega)
-    rw [hP] at hx
-    nlinarith
+    rw [hmv, hT, hE]; exact hx
   have := encloses_lattice c hes hn neg true he hf hlast x (by intro h; cases h)
     (by intro _; exact ⟨key, fun h => absurd ⟨rfl, rfl⟩ h⟩)
   rw [hmax] at this
   simpa using this
+
+/-- any x at or above 2^MAX_EXP is enclosed by (maxpos, ∞) -/
+theorem encloses_above (c : Cfg) (hes : 1 ≤ c.es) (hn : c.es + 3 ≤ c.nbits) (neg : Bool) (x : Rat)
+    (hx : pow2 (((2 ^ c.es : Nat) : Int) - c.bias) ≤ x) :
+    encloses c (.fin neg x) ((if neg then 2 ^ (c.nbits - 1) else 0) + maxposMag c + 1) = true := by
+  apply encloses_above_gt c hes hn
+  have hP : pow2 (((2 ^ c.es : Nat) : Int) - c.bias) =
+      pow2 (((2 ^ c.es : Nat) : Int) - c.bias - 1 - (c.fbits : Int)) * ((2 ^ (c.fbits + 1) : Nat) : Rat) := by
+    rw [← pow2_add_nat]; congr 1; push_cast; ring
+  have hpos := pow2_pos (((2 ^ c.es : Nat) : Int) - c.bias - 1 - (c.fbits : Int))
+  have hQ2 : 1 ≤ 2 ^ c.fbits := Nat.one_le_two_pow
+  have hc : ((2 ^ c.fbits - 2 + 2 ^ c.fbits : Nat) : Rat) < ((2 ^ (c.fbits + 1) : Nat) : Rat) := by
+    exact_mod_cast (show 2 ^ c.fbits - 2 + 2 ^ c.fbits < 2 ^ (c.fbits + 1) by rw [Nat.pow_succ]; omega)
+  rw [hP] at hx
+  nlinarith
 
 /-- any positive x below the smallest subnormal is enclosed by (0, minpos) -/
 theorem encloses_below (c : Cfg) (hes : 1 ≤ c.es) (hn : c.es + 3 ≤ c.nbits) (neg : Bool) (x : Rat)
@@ -255,40 +291,39 @@ theorem encloses_zero (c : Cfg) (hes : 1 ≤ c.es) (hn : c.es + 3 ≤ c.nbits) (
     (by intro h; cases h)
   simpa using this
 
-/-- saturation branch: sources with unbiased exponent above MAX_EXP map to (maxpos, ∞) / (−∞, maxneg) -/
-theorem assignCore_above (c : Model.Cfg) (srcF srcBias W : Nat) (sub : Bool) (s : Bool) (raw_exp raw0 : Nat)
-    (hes : 1 ≤ c.es) (hn : c.es + 3 ≤ c.nbits)
-    (hhi : c.MAX_EXP < (raw_exp : Int) - (srcBias : Int)) :
-    encloses (specCfg c)
-      (.fin s (dyadic ((raw0 + 2 ^ srcF : Nat) : Int) ((raw_exp : Int) - (srcBias : Int) - (srcF : Int))))
-      (Model.assignCore c srcF srcBias W sub s raw_exp raw0) = true := by
-  unfold Model.assignCore
-  simp only [gt_iff_lt, hhi, if_true]
+/-- the saturated encodings as the spec writes them -/
+theorem sat_enc (c : Model.Cfg) (hn : c.es + 3 ≤ c.nbits) (s : Bool) :
+    (if s then Model.maxneg c else Model.maxpos c) ||| 1 =
+      (if s then 2 ^ ((specCfg c).nbits - 1) else 0) + maxposMag (specCfg c) + 1 := by
   have hN : 2 ^ c.nbits = 2 * 2 ^ (c.nbits - 1) := by
     rw [show c.nbits = (c.nbits - 1) + 1 by omega, Nat.pow_succ]; simp; ring
-  have h4 : 4 ≤ 2 ^ (c.nbits - 1) := by
-    calc 4 = 2 ^ 2 := rfl
-      _ ≤ 2 ^ (c.nbits - 1) := Nat.pow_le_pow_right (by omega) (by omega)
-  have henc : (if s then Model.maxneg c else Model.maxpos c) ||| 1 =
-      (if s then 2 ^ ((specCfg c).nbits - 1) else 0) + maxposMag (specCfg c) + 1 := by
-    unfold Model.maxneg Model.maxpos maxposMag
-    rw [specCfg_nbits]
-    obtain ⟨q, hq, hq1⟩ : ∃ q, 2 ^ (c.nbits - 1) = 4 * q ∧ 1 ≤ q :=
-      ⟨2 ^ (c.nbits - 3), by rw [show c.nbits - 1 = (c.nbits - 3) + 2 by omega, Nat.pow_add]; ring,
-        Nat.two_pow_pos _⟩
-    rw [hN, hq]
-    have h := even_or_bit (x := if s then 2 * (4 * q) - 4 else 4 * q - 4)
-      (by cases s <;> simp <;> omega) true
-    simp only [if_true] at h
-    rw [h]; cases s <;> simp <;> omega
-  rw [henc]
+  unfold Model.maxneg Model.maxpos maxposMag
+  rw [specCfg_nbits]
+  obtain ⟨q, hq, hq1⟩ : ∃ q, 2 ^ (c.nbits - 1) = 4 * q ∧ 1 ≤ q :=
+    ⟨2 ^ (c.nbits - 3), by rw [show c.nbits - 1 = (c.nbits - 3) + 2 by omega, Nat.pow_add]; ring,
+      Nat.two_pow_pos _⟩
+  rw [hN, hq]
+  have h := even_or_bit (x := if s then 2 * (4 * q) - 4 else 4 * q - 4)
+    (by cases s <;> simp <;> omega) true
+  simp only [if_true] at h
+  rw [h]; cases s <;> simp <;> omega
+
+/-- saturation branch: sources with unbiased exponent at or above MAX_EXP map to (maxpos, ∞) / (−∞, maxneg) -/
+theorem assignCore_above (c : Model.Cfg) (srcF W : Nat) (s : Bool) (exponent : Int) (raw0 : Nat)
+    (hes : 1 ≤ c.es) (hn : c.es + 3 ≤ c.nbits)
+    (hhi : c.MAX_EXP ≤ exponent) :
+    encloses (specCfg c)
+      (.fin s (dyadic ((raw0 + 2 ^ srcF : Nat) : Int) (exponent - (srcF : Int))))
+      (Model.assignCore c srcF W s exponent raw0) = true := by
+  unfold Model.assignCore
+  simp only [ge_iff_le, hhi, if_true]
+  rw [sat_enc c hn s]
   apply encloses_above (specCfg c) hes hn
   rw [specCfg_bias, dyadic_def]
   have hM : (specCfg c).es = c.es := rfl
   rw [hM]
   have h1 : ((2 ^ c.es : Nat) : Int) - c.EXP_BIAS = c.MAX_EXP := rfl
   rw [h1]
-  generalize hexp : (raw_exp : Int) - (srcBias : Int) = exponent at *
   have h2 : pow2 c.MAX_EXP ≤ pow2 exponent := pow2_mono (by omega)
   have h3 : pow2 exponent = pow2 (exponent - (srcF : Int)) * ((2 ^ srcF : Nat) : Rat) := by
     rw [← pow2_add_nat]; congr 1; omega
@@ -299,16 +334,49 @@ theorem assignCore_above (c : Model.Cfg) (srcF srcBias W : Nat) (sub : Bool) (s 
   rw [h3] at h2
   nlinarith
 
-/-- flush branch: sources with unbiased exponent below MIN_EXP_SUBNORMAL map to (0, minpos) / (−minpos, −0) -/
-theorem assignCore_below (c : Model.Cfg) (srcF srcBias W : Nat) (sub : Bool) (s : Bool) (raw_exp raw0 : Nat)
-    (hes : 1 ≤ c.es) (hn : c.es + 3 ≤ c.nbits) (hraw : raw0 < 2 ^ srcF)
-    (hmax : ¬ c.MAX_EXP < (raw_exp : Int) - (srcBias : Int))
-    (hlo : (raw_exp : Int) - (srcBias : Int) < c.MIN_EXP_SUBNORMAL) :
+/-- the all-ones corner of the top binade (exponent MAX_EXP-1, every fraction-field bit set): the value is at least the
+    would-be value of the inf pattern, hence beyond maxpos, and the repaired code saturates: (maxpos, ∞) / (−∞, maxneg) -/
+theorem assignCore_top_encloses (c : Model.Cfg) (srcF W : Nat) (s : Bool) (exponent : Int) (raw0 : Nat)
+    (hes : 1 ≤ c.es) (hn : c.es + 3 ≤ c.nbits) (hW : c.nbits ≤ W) (hraw : raw0 < 2 ^ srcF)
+    (he : exponent = c.MAX_EXP - 1)
+    (hf : raw0 * 2 ^ (c.fbits - srcF) / 2 ^ (srcF - c.fbits) = 2 ^ c.fbits - 1) :
     encloses (specCfg c)
-      (.fin s (dyadic ((raw0 + 2 ^ srcF : Nat) : Int) ((raw_exp : Int) - (srcBias : Int) - (srcF : Int))))
-      (Model.assignCore c srcF srcBias W sub s raw_exp raw0) = true := by
+      (.fin s (dyadic ((raw0 + 2 ^ srcF : Nat) : Int) (exponent - (srcF : Int))))
+      (Model.assignCore c srcF W s exponent raw0) = true := by
+  have hFW : c.fbits + 1 ≤ W := by unfold Model.Cfg.fbits; omega
+  rw [assignCore_top c srcF W s exponent raw0 hes hraw hFW he hf, sat_enc c hn s]
+  obtain ⟨hftlt, hlolt, hP, hx⟩ := src_decomp srcF c.fbits raw0 exponent hraw
+  apply encloses_above_gt (specCfg c) hes hn
+  rw [hx, hf, specCfg_bias, specCfg_fbits]
+  have hM : (specCfg c).es = c.es := rfl
+  rw [hM]
+  have h1 : ((2 ^ c.es : Nat) : Int) - c.EXP_BIAS - 1 - (c.fbits : Int) = exponent - (c.fbits : Int) := by
+    rw [he]; unfold Model.Cfg.MAX_EXP; ring
+  rw [h1]
+  have hpos := pow2_pos (exponent - (c.fbits : Int))
+  have hpos2 := pow2_pos (exponent - (srcF : Int) - ((c.fbits - srcF : Nat) : Int))
+  have hQ1 : 1 ≤ 2 ^ c.fbits := Nat.one_le_two_pow
+  have hc : ((2 ^ c.fbits - 2 + 2 ^ c.fbits : Nat) : Rat) < ((2 ^ c.fbits - 1 + 2 ^ c.fbits : Nat) : Rat) := by
+    have hF1 : 1 ≤ c.fbits := by unfold Model.Cfg.fbits; omega
+    have : 2 ^ 1 ≤ 2 ^ c.fbits := Nat.pow_le_pow_right (by omega) hF1
+    exact_mod_cast (show 2 ^ c.fbits - 2 + 2 ^ c.fbits < 2 ^ c.fbits - 1 + 2 ^ c.fbits by omega)
+  have hl0 : (0 : Rat) ≤ ((raw0 * 2 ^ (c.fbits - srcF) % 2 ^ (srcF - c.fbits) : Nat) : Rat) := by positivity
+  nlinarith
+
+/-- flush branch: sources with unbiased exponent below MIN_EXP_SUBNORMAL map to (0, minpos) / (−minpos, −0) -/
+theorem assignCore_below (c : Model.Cfg) (srcF W : Nat) (s : Bool) (exponent : Int) (raw0 : Nat)
+    (hes : 1 ≤ c.es) (hn : c.es + 3 ≤ c.nbits) (hraw : raw0 < 2 ^ srcF)
+    (hlo : exponent < c.MIN_EXP_SUBNORMAL) :
+    encloses (specCfg c)
+      (.fin s (dyadic ((raw0 + 2 ^ srcF : Nat) : Int) (exponent - (srcF : Int))))
+      (Model.assignCore c srcF W s exponent raw0) = true := by
+  obtain ⟨k1, k2, k3⟩ := model_consts c hes
+  have hes2 : ((2 ^ c.es : Nat) : Int) ≥ 2 := by
+    have : 2 ^ 1 ≤ 2 ^ c.es := Nat.pow_le_pow_right (by omega) hes
+    omega
+  have hmax : ¬ exponent ≥ c.MAX_EXP := by omega
   unfold Model.assignCore
-  simp only [gt_iff_lt, hmax, if_false, hlo, if_true]
+  simp only [hmax, if_false, hlo, if_true]
   have henc : (if s then Model.signBit c else 0) ||| 1 = (if s then 2 ^ ((specCfg c).nbits - 1) else 0) + 1 := by
     unfold Model.signBit
     rw [specCfg_nbits]
@@ -320,7 +388,6 @@ theorem assignCore_below (c : Model.Cfg) (srcF srcBias W : Nat) (sub : Bool) (s 
     have h := even_or_bit hev true
     simpa using h
   rw [henc]
-  generalize hexp : (raw_exp : Int) - (srcBias : Int) = exponent at *
   have hpos := pow2_pos (exponent - (srcF : Int))
   apply encloses_below (specCfg c) hes hn
   · rw [dyadic_def]
@@ -339,6 +406,54 @@ theorem assignCore_below (c : Model.Cfg) (srcF srcBias W : Nat) (sub : Bool) (s 
       exact_mod_cast this
     rw [h3] at h2
     nlinarith
+
+/-- EVERY normalised finite source is enclosed by what the common body produces -/
+theorem assignCore_encloses_all (c : Model.Cfg) (srcF W : Nat) (s : Bool) (exponent : Int) (raw0 : Nat)
+    (hes : 1 ≤ c.es) (hn : c.es + 3 ≤ c.nbits) (hw : 1 ≤ c.w) (hW : c.nbits ≤ W) (hW64 : W ≤ 64)
+    (hst : c.nrBlocks = 1 ∨ c.nrBlocks ≤ (W + 1) / c.w) (hraw : raw0 < 2 ^ srcF) :
+    encloses (specCfg c)
+      (.fin s (dyadic ((raw0 + 2 ^ srcF : Nat) : Int) (exponent - (srcF : Int))))
+      (Model.assignCore c srcF W s exponent raw0) = true := by
+  by_cases habove : c.MAX_EXP ≤ exponent
+  · exact assignCore_above c srcF W s exponent raw0 hes hn habove
+  by_cases hbelow : exponent < c.MIN_EXP_SUBNORMAL
+  · exact assignCore_below c srcF W s exponent raw0 hes hn hraw hbelow
+  by_cases htop : exponent = c.MAX_EXP - 1 ∧ raw0 * 2 ^ (c.fbits - srcF) / 2 ^ (srcF - c.fbits) = 2 ^ c.fbits - 1
+  · exact assignCore_top_encloses c srcF W s exponent raw0 hes hn hW hraw htop.1 htop.2
+  · exact assignCore_encloses c srcF W s exponent raw0 hes hn hw hW hW64 hst hraw (by omega) (by omega) htop
+
+/-- normalisation of a subnormal source (exponent field 0, fraction raw ≠ 0): the result is a fraction below 2^srcF and
+    the normalised pair denotes the same value raw·2^(1 - srcBias - srcF) -/
+theorem normalizeSrc_subnormal (srcF srcBias raw : Nat) (hraw : raw < 2 ^ srcF) (h0 : 0 < raw) :
+    (Model.normalizeSrc srcF srcBias 0 raw).2 < 2 ^ srcF ∧
+    dyadic ((raw : Nat) : Int) (1 - (srcBias : Int) - (srcF : Int)) =
+      dyadic (((Model.normalizeSrc srcF srcBias 0 raw).2 + 2 ^ srcF : Nat) : Int)
+        ((Model.normalizeSrc srcF srcBias 0 raw).1 - (srcF : Int)) := by
+  unfold Model.normalizeSrc
+  simp only [beq_self_eq_true, if_true]
+  have hne : raw ≠ 0 := by omega
+  have hm1 : 2 ^ raw.log2 ≤ raw := Nat.log2_self_le hne
+  have hm2 : raw < 2 ^ (raw.log2 + 1) := Nat.lt_log2_self
+  have hm3 : raw.log2 < srcF := (Nat.log2_lt hne).mpr hraw
+  generalize raw.log2 = m at *
+  have hsh : srcF + 1 - (m + 1) = srcF - m := by omega
+  rw [hsh, Nat.shiftLeft_eq]
+  have hlo : 2 ^ srcF ≤ raw * 2 ^ (srcF - m) := by
+    calc 2 ^ srcF = 2 ^ m * 2 ^ (srcF - m) := by rw [← Nat.pow_add]; congr 1; omega
+      _ ≤ raw * 2 ^ (srcF - m) := Nat.mul_le_mul_right _ hm1
+  have hhi : raw * 2 ^ (srcF - m) < 2 ^ srcF + 2 ^ srcF := by
+    calc raw * 2 ^ (srcF - m) < 2 ^ (m + 1) * 2 ^ (srcF - m) := Nat.mul_lt_mul_of_pos_right hm2 (Nat.two_pow_pos _)
+      _ = 2 ^ (srcF + 1) := by rw [← Nat.pow_add]; congr 1; omega
+      _ = 2 ^ srcF + 2 ^ srcF := by rw [Nat.pow_succ]; omega
+  have hmod : raw * 2 ^ (srcF - m) % 2 ^ srcF = raw * 2 ^ (srcF - m) - 2 ^ srcF := by
+    rw [Nat.mod_eq_sub_mod hlo, Nat.mod_eq_of_lt (by omega)]
+  rw [hmod]
+  refine ⟨by omega, ?_⟩
+  rw [show raw * 2 ^ (srcF - m) - 2 ^ srcF + 2 ^ srcF = raw * 2 ^ (srcF - m) by omega, dyadic_def, dyadic_def]
+  have hP : pow2 (1 - (srcBias : Int) - (srcF : Int)) =
+      pow2 (1 - (srcBias : Int) - ((srcF - m : Nat) : Int) - (srcF : Int)) * ((2 ^ (srcF - m) : Nat) : Rat) := by
+    rw [← pow2_add_nat]; congr 1; omega
+  rw [hP]; push_cast; ring
 
 theorem testBit_top_areal {x k : Nat} (h : x < 2 ^ (k + 1)) : x.testBit k = decide (2 ^ k ≤ x) := by
   by_cases hx : 2 ^ k ≤ x
@@ -383,43 +498,6 @@ theorem encloses_inf_nan (c : Model.Cfg) (hn : 4 ≤ c.nbits) (s : Bool) :
   · have hb : 2 ^ (c.nbits - 1) - 1 < 2 ^ c.nbits := by omega
     simp only [hb, decide_true, Bool.true_and, Nat.mod_eq_of_lt (show 2 ^ (c.nbits - 1) - 1 < 2 ^ (c.nbits - 1) by omega)]
     simp
-
-/-- flush branch for a SUBNORMAL source (exponent field 0): the code uses exponent = -srcBias; when that is below
-    MIN_EXP_SUBNORMAL the source (whose true value is raw·2^(1-srcBias-srcF)) is enclosed by (0, minpos) -/
-theorem assignCore_below_subnormal_src (c : Model.Cfg) (srcF srcBias W : Nat) (sub : Bool) (s : Bool) (raw0 : Nat)
-    (hes : 1 ≤ c.es) (hn : c.es + 3 ≤ c.nbits) (hraw : raw0 < 2 ^ srcF) (hraw0 : 0 < raw0)
-    (hmax : ¬ c.MAX_EXP < ((0 : Nat) : Int) - (srcBias : Int))
-    (hlo : ((0 : Nat) : Int) - (srcBias : Int) < c.MIN_EXP_SUBNORMAL) :
-    encloses (specCfg c)
-      (.fin s (dyadic ((raw0 : Nat) : Int) (1 - (srcBias : Int) - (srcF : Int))))
-      (Model.assignCore c srcF srcBias W sub s 0 raw0) = true := by
-  unfold Model.assignCore
-  simp only [gt_iff_lt, hmax, if_false, hlo, if_true]
-  have henc : (if s then Model.signBit c else 0) ||| 1 = (if s then 2 ^ ((specCfg c).nbits - 1) else 0) + 1 := by
-    unfold Model.signBit
-    rw [specCfg_nbits]
-    have hev : (if s then 2 ^ (c.nbits - 1) else 0) % 2 = 0 := by
-      cases s
-      · simp
-      · simp only [if_true]
-        rw [show c.nbits - 1 = (c.nbits - 2) + 1 by omega, Nat.pow_succ]; omega
-    have h := even_or_bit hev true
-    simpa using h
-  rw [henc]
-  have hpos := pow2_pos (1 - (srcBias : Int) - (srcF : Int))
-  apply encloses_below (specCfg c) hes hn
-  · rw [dyadic_def]
-    have : (0 : Rat) < (((raw0 : Nat) : Int) : Rat) := by exact_mod_cast hraw0
-    positivity
-  · rw [specCfg_bias, specCfg_fbits, dyadic_def]
-    have h1 : 1 - c.EXP_BIAS - (c.fbits : Int) = c.MIN_EXP_SUBNORMAL := rfl
-    rw [h1]
-    have h2 : pow2 (1 - (srcBias : Int)) ≤ pow2 c.MIN_EXP_SUBNORMAL := pow2_mono (by omega)
-    have h3 : pow2 (1 - (srcBias : Int)) = pow2 (1 - (srcBias : Int) - (srcF : Int)) * ((2 ^ srcF : Nat) : Rat) := by
-      rw [← pow2_add_nat]; congr 1; ring
-    have h5 : (((raw0 : Nat) : Int) : Rat) < ((2 ^ srcF : Nat) : Rat) := by exact_mod_cast hraw
-    rw [h3] at h2
-    nlinarith
 
 
 end UVerif.ArealLemmas
